@@ -43,6 +43,14 @@ type Job struct {
 	StepChecksums []string
 }
 
+// jobFile is what the status file holds: the fields of Job, the status as a copy
+type jobFile struct {
+	Status        *gripql.JobStatus
+	DataType      gdbi.DataType
+	MarkTypes     map[string]gdbi.DataType
+	StepChecksums []string
+}
+
 // getStatus returns a copy of the job status
 func (job *Job) getStatus() *gripql.JobStatus {
 	job.mu.RLock()
@@ -179,11 +187,16 @@ func (fs *FSResults) Spool(graph string, stream *Stream) (string, error) {
 		statusFile, err := os.Create(statusPath)
 		if err == nil {
 			defer statusFile.Close()
-			job.setState(gripql.JobState_COMPLETE)
-			out, err := json.Marshal(job)
+			// the status file is written, with the state about to be published, BEFORE the job
+			// reads COMPLETE: a client that has seen COMPLETE finds the job again after a restart
+			// (a status file that is still empty is skipped when the storage is reopened)
+			final := job.getStatus()
+			final.State = gripql.JobState_COMPLETE
+			out, err := json.Marshal(&jobFile{Status: final, DataType: job.DataType, MarkTypes: job.MarkTypes, StepChecksums: job.StepChecksums})
 			if err == nil {
 				statusFile.Write([]byte(fmt.Sprintf("%s\n", out)))
 			}
+			job.setState(gripql.JobState_COMPLETE)
 			log.Printf("Job Done: %s (%d results)", jobName, job.getStatus().Count)
 		} else {
 			job.setState(gripql.JobState_ERROR)
